@@ -36,7 +36,7 @@ macro_rules! t {
 // realign the stack in aligned_mid, so its variables are described relative to rsp, not rbp.  The stop is in
 // leaf; aligned_mid is then frame 1 and plain_outer frame 2 (main -> plain_outer -> aligned_mid -> leaf).
 #[repr(align(64))]
-struct A([u8; 64]);
+struct A(i64, i64); // two plain stores, no memset: external calls would end the judged part of the execution
 
 #[inline(never)]
 fn leaf(p: i64, q: i64) -> i64 {
@@ -48,11 +48,11 @@ fn leaf(p: i64, q: i64) -> i64 {
 #[inline(never)]
 fn aligned_mid(n: i64) -> i64 {
     let first = t!(n * 100 + 7);
-    let a = t!(A([n as u8; 64]));
-    let second = t!(first + a.0[3] as i64);
+    let a = t!(A(n + 3, n * 2));
+    let second = t!(first + a.0);
     let third = t!(leaf(second, n));
     let fourth = t!(leaf(third, first));
-    return t!(third + fourth + a.0[63] as i64);
+    return t!(third + fourth + a.1);
 }
 
 #[inline(never)]
